@@ -1,6 +1,9 @@
 package main
 
 import (
+	"fmt"
+	"strings"
+
 	"golang.org/x/tools/go/ssa"
 )
 
@@ -144,6 +147,7 @@ func checkRollbackWalk(c *Ctx, rule string) {
 	} else {
 		c.Unresolved(rule, "wtxmgr.Store.Rollback")
 	}
+	checkRepositionSeeksGivenPosition(c, rule)
 	// an iterator is repositioned at the record it is standing on (after nested cursors moved it away), not at some other
 	// key: repositioning at the rollback target lands the next prev() below the target and ends the walk after one block
 	if rbf := wtxFn(c, rule, "rollback"); rbf != nil {
@@ -170,3 +174,65 @@ func checkRollbackWalk(c *Ctx, rule string) {
 }
 
 var _ = ssa.NewProgram
+
+// checkRepositionSeeksGivenPosition: an iterator's reposition method puts the cursor back on the record whose position it
+// is given (the caller passes the element it is standing on, after nested cursors moved the shared cursor away): the key
+// it seeks is built from its parameters unchanged. Seeking the key of a neighbouring position (height-1) makes the next
+// step skip a record: a downward walk over consecutive heights leaves every other block connected.
+func checkRepositionSeeksGivenPosition(c *Ctx, rule string) {
+	p := c.P
+	n := 0
+	for _, fn := range p.FuncsIn("wtxmgr") {
+		if fn.Signature.Recv() == nil || fn.Parent() != nil || !strings.HasSuffix(recvName(fn), "terator") {
+			continue
+		}
+		// by role: a method with parameters that does nothing but seek the cursor
+		var seeks []*ssa.Call
+		others := 0
+		for _, ci := range callsOf(fn) {
+			call, ok := ci.(*ssa.Call)
+			if !ok {
+				continue
+			}
+			if call.Call.IsInvoke() && call.Call.Method.Name() == "Seek" {
+				seeks = append(seeks, call)
+			} else if g := call.Call.StaticCallee(); g == nil || fnPkgPath(g) != fnPkgPath(fn) {
+				others++
+			}
+		}
+		if len(seeks) != 1 || others > 0 || len(fn.Params) < 2 || fn.Signature.Results().Len() != 0 {
+			continue
+		}
+		n++
+		ok := true
+		detail := ""
+		kb, isCall := stripConv(seeks[0].Call.Args[0]).(*ssa.Call)
+		if !isCall || kb.Call.StaticCallee() == nil {
+			ok, detail = false, "the sought key is not built by a key function from the method's parameters (undecided)"
+		} else {
+			for i, a := range kb.Call.Args {
+				a = stripConv(a)
+				if _, isPrm := a.(*ssa.Parameter); isPrm {
+					continue
+				}
+				if !isBasic(a.Type()) {
+					ok, detail = false, fmt.Sprintf("argument %d of %s is not a parameter of %s", i, kb.Call.StaticCallee().Name(), fn.Name())
+					continue
+				}
+				l := p.linearize(a, 0)
+				if l.Konst != 0 || len(l.Coef) != 1 {
+					ok, detail = false, fmt.Sprintf("argument %d of %s is %s, not the position the method was given", i, kb.Call.StaticCallee().Name(), l.String())
+					continue
+				}
+				for k, v := range l.Coef {
+					if v != 1 || !strings.HasPrefix(k, "param#") {
+						ok, detail = false, fmt.Sprintf("argument %d of %s is %s, not the position the method was given", i, kb.Call.StaticCallee().Name(), l.String())
+					}
+				}
+			}
+		}
+		c.Check(rule, "reposition-seeks-given-position:"+recvName(fn), seeks[0].Pos(), ok,
+			fnName(fn)+" does not put the cursor back on the position it is given ("+detail+"): the step that follows skips a record — a rollback over consecutive heights leaves every other block connected")
+	}
+	c.Floor(rule, "iterator reposition methods", n, 1)
+}
